@@ -106,6 +106,29 @@ def gen_attack_modules(tier):
                     "    pub fn attack() { %s }\n}\n" % (n, vis_txt, use))
             out.append(("k%d" % n, text, vis == "priv", {"shape": "visibility", "vis": vis, "attack": "name_" + what, "legal": vis != "priv"}))
             n += 1
+    # nested modules: kN { mod outer { pub mod a { <vis> struct P } fn inside() } fn attack() }
+    VIS = [("priv", "", 0), ("pub_self", "pub(self) ", 0), ("pub_super", "pub(super) ", 1), ("pub_in_grandparent", "pub(in super::super) ", 2),
+           ("pub_crate", "pub(crate) ", 2), ("pub", "pub ", 2)]        # reach: 0 = a only, 1 = outer, 2 = kN and beyond
+    for vis, vis_txt, reach in VIS:
+        for what, ty in (("type", "P"), ("error_type", "PError"), ("parse_error_type", "PParseError")):
+            for pos, need in (("from_parent_module", 1), ("from_grandparent_module", 2)):
+                legal = reach >= need
+                use = "let x: Option<%s%s> = None;" % ("a::" if pos == "from_parent_module" else "outer::a::", ty)
+                inside = use if pos == "from_parent_module" else ""
+                outside = use if pos == "from_grandparent_module" else ""
+                text = ("pub mod k%d {\n    #![allow(dead_code, unused_imports, unused_variables)]\n"
+                        "    mod outer {\n        pub mod a {\n            use nutype::nutype;\n            #[nutype(validate(greater = 1), derive(Debug, FromStr))]\n            %sstruct P(i32);\n        }\n"
+                        "        pub fn inside() { %s }\n    }\n    pub fn attack() { %s }\n}\n" % (n, vis_txt, inside, outside))
+                out.append(("k%d" % n, text, not legal, {"shape": "visibility_nested", "vis": vis, "attack": "name_%s_%s" % (what, pos), "where": pos, "legal": legal}))
+                n += 1
+        # the hidden module is never nameable from outside the declaring module, whatever the visibility
+        for pos, path in (("from_parent_module", "a::__nutype_P__::P"), ("from_grandparent_module", "outer::a::__nutype_P__::P")):
+            use = "let x: Option<%s> = None;" % path
+            text = ("pub mod k%d {\n    #![allow(dead_code, unused_imports, unused_variables)]\n"
+                    "    mod outer {\n        pub mod a {\n            use nutype::nutype;\n            #[nutype(validate(greater = 1), derive(Debug, FromStr))]\n            %sstruct P(i32);\n        }\n"
+                    "        pub fn inside() { %s }\n    }\n    pub fn attack() { %s }\n}\n" % (n, vis_txt, use if pos == "from_parent_module" else "", use if pos != "from_parent_module" else ""))
+            out.append(("k%d" % n, text, True, {"shape": "visibility_nested", "vis": vis, "attack": "name_hidden_module_" + pos, "where": pos, "legal": False}))
+            n += 1
     return out + gen_foreign_attr_modules()
 
 
